@@ -9,6 +9,9 @@ COQ_TARGETS = ["Paths.vo", "PathsProofs.vo", "CorrC18.vo", "Props/C18.vo"]
 PROPS_FILE = "Props/C18.v"
 CORR_IMPORTS = "Base Paths CorrC18"
 OPEN_SCOPES = ["string_scope", "list_scope"]
+CASE_TYPE = "mcase"          # a scenario is a list of stages (CorrC18.v): the type system grows between them
+CHECK_FN = "check_mcase"
+PREMISES_FN = "mpremises"
 ENTRY = "cassis.typesystem.FeatureStructure.get / set / __getitem__ / __setitem__ / value"
 RULE = (
     "quick: (a) every string of length <= 5 over {feature, unknown name, '.'} as a get path and as a set path on a "
@@ -17,8 +20,12 @@ RULE = (
     "reference slots) with <= 10 operations: guided walks up to 12 segments with injected unknown names, empty "
     "segments, Python attribute names that are not features (type, xmiID, get, set, value, __class__, ...), set / []= "
     "followed by get of the same path and of other paths, value(), and non-string path arguments (None, int, bytes, "
-    "list, tuple, an object whose str() is a valid path). thorough: more of (b) and length <= 6 in (a). A case is non-trivial when a string path has >= 3 "
-    "segments or a set with a dotted path succeeds."
+    "list, tuple, an object whose str() is a valid path); (c) staged scenarios (about 30 % of (b), and every string of "
+    "length <= 4 of (a)): the same operations are first run while some features of the final type system do not exist "
+    "yet (on the type itself or on its supertype), so that paths naming them are looked up and sets through them "
+    "refused, then the features are added with create_feature, fresh structures are built and the operations of "
+    "(b) run; every stage is compared with the step-by-step reading on the type system of that moment. "
+    "thorough: more of (b), (c) and length <= 6 in (a). A case is non-trivial when a string path has >= 3 segments."
 )
 TRUSTED = [
     "Coq 8.16.1 kernel and vm_compute; theorems in Props/C18.v are closed under the global context",
@@ -28,10 +35,15 @@ TRUSTED = [
     "the effective feature names of the built-in types used (Annotation, NonEmptyFSList, FSArray, ...) are a table in the "
     "harness; inheritance of user types is computed from the scenario (C11 proves all_features is that set)",
     "primitive values are compared by a canonical text (kind:repr)",
+    "staged scenarios: the model is stateless in the type system (get/set take the schema of the moment); each stage "
+    "is rendered as its own case with the effective features of that moment and fresh structures",
 ]
 ASSUMPTIONS = [
     "feature names are not among the reserved structural names (type, xmiID, self, get, set, value, ...): DESIGN.md preconditions",
     "set_then_get needs the walk along the prefix not to read the assigned slot (refuted without it: C18_set_then_get_aliasing_refuted)",
+    "structures created before a feature was added to their type are not accessed after the addition (they are instances "
+    "of the superseded class and lack the slot, so plain attribute access itself raises); every stage works on structures "
+    "created after the last create_feature",
 ]
 
 BUILTIN_FEATURES = {
@@ -59,6 +71,35 @@ def effective_features(schema):
     for t in schema:  # parents are listed before children
         out[t["name"]] = list(out[t["parent"]]) + [f for f, _r in t["features"]]
     return out
+
+
+def stages(sc):
+    """The stages of a scenario in order: the optional earlier ones (sc['pre'], each with the schema of that moment,
+    a subset of the final one, its own structures and operations), then the scenario itself."""
+    return list(sc.get("pre") or []) + [sc]
+
+
+def _strip(objs, eff):
+    """the same structures without the slots that are no feature (yet)"""
+    return [{"t": o["t"], "slots": {f: v for f, v in o["slots"].items() if f in eff[o["t"]]}} for o in objs]
+
+
+def _rand_pre(rng, sc):
+    """Earlier stages for sc: every (type, feature) of the final schema gets the stage at which it is created; the
+    operations of the earlier stages are guided by the FINAL schema and heap, so they name the features that do
+    not exist yet (and are therefore unknown names at that moment)."""
+    k = 1 if rng.random() < 0.8 else 2
+    pairs = [(t["name"], f) for t in sc["schema"] for f, _r in t["features"]]
+    when = {p: rng.choice([0] * 2 + list(range(1, k + 1)) * 3) for p in pairs}
+    when[rng.choice(pairs)] = k  # at least one feature appears at the last stage
+    pre = []
+    for j in range(k):
+        schema_j = [{"name": t["name"], "parent": t["parent"],
+                     "features": [[f, r] for f, r in t["features"] if when[(t["name"], f)] <= j]} for t in sc["schema"]]
+        objs_j = _strip(json.loads(json.dumps(sc["objs"])), effective_features(schema_j))
+        ops_j = _rand_ops(rng, {"schema": sc["schema"], "objs": sc["objs"]}, rng.randint(2, 5))
+        pre.append({"schema": schema_j, "objs": objs_j, "ops": ops_j})
+    return pre
 
 
 def _rand_schema(rng):
@@ -283,7 +324,11 @@ SMALL_OBJS = [{"t": "t.A", "slots": {"a": ["r", 0], "c": ["r", 1]}}, {"t": "t.B"
               {"t": "t.A", "slots": {}}]
 
 
-def _exhaustive(maxlen):
+SMALL_SCHEMA_EARLY = [{"name": "t.A", "parent": "uima.cas.TOP", "features": [["a", "t.A"]]},
+                      {"name": "t.B", "parent": "uima.cas.TOP", "features": []}]
+
+
+def _exhaustive(maxlen, staged=False):
     strings = []
     for n in range(maxlen + 1):
         for tup in itertools.product(["a", "c", "z", "."], repeat=n):
@@ -300,17 +345,24 @@ def _exhaustive(maxlen):
         for j, s in enumerate(chunk):
             ops.append({"k": ["set", "setitem"][j % 2], "root": (i + j) % 2, "path": ["s", s], "v": [["p", ["i", j]], ["r", 2], None][(i + j) % 3]})
             ops.append({"k": "get", "root": (i + j) % 2, "path": ["s", s]})
-        yield {"schema": SMALL_SCHEMA, "objs": json.loads(json.dumps(SMALL_OBJS)), "ops": ops}
+        sc = {"schema": SMALL_SCHEMA, "objs": json.loads(json.dumps(SMALL_OBJS)), "ops": ops}
+        if staged:  # the same operations while t.A has no c and t.B has no a yet
+            sc["pre"] = [{"schema": SMALL_SCHEMA_EARLY, "objs": _strip(SMALL_OBJS, effective_features(SMALL_SCHEMA_EARLY)),
+                          "ops": json.loads(json.dumps(ops))}]
+        yield sc
 
 
 def generate(rng, tier):
     if tier != "search":
         yield from _exhaustive(5 if tier == "quick" else 6)
-    n_rand = {"quick": 2000, "thorough": 12000, "search": 6000}[tier]
+        yield from _exhaustive(4 if tier == "quick" else 5, staged=True)
+    n_rand = {"quick": 1800, "thorough": 12000, "search": 6000}[tier]
     for _ in range(n_rand):
         schema = _rand_schema(rng)
         sc = {"schema": schema, "objs": _rand_heap(rng, schema), "ops": []}
         sc["ops"] = _rand_ops(rng, sc, rng.randint(2, 8))
+        if rng.random() < 0.3:
+            sc["pre"] = _rand_pre(rng, sc)
         yield sc
 
 
@@ -357,14 +409,30 @@ class _StrLike:
 
 
 def run_impl(cassis, sc):
+    """One type system for the whole scenario; before each stage the features of that stage's schema that do not
+    exist yet are created (types in scenario order, so a supertype's before its subtypes'), then the stage's own
+    structures are built and its operations run."""
     from cassis import TypeSystem
-    from cassis.typesystem import FeatureStructure
     ts = TypeSystem()
     for t in sc["schema"]:
         ts.create_type(t["name"], t["parent"])
-    for t in sc["schema"]:
-        for f, r in t["features"]:
-            ts.create_feature(ts.get_type(t["name"]), f, r)
+    created = set()
+    out = []
+    for st in stages(sc):
+        for t in st["schema"]:
+            for f, r in t["features"]:
+                if (t["name"], f) not in created:
+                    ts.create_feature(ts.get_type(t["name"]), f, r)
+                    created.add((t["name"], f))
+        out.append(_run_stage(ts, st))
+    obs = out[-1]
+    if len(out) > 1:
+        obs["pre"] = out[:-1]
+    return obs
+
+
+def _run_stage(ts, sc):
+    from cassis.typesystem import FeatureStructure
     eff = effective_features(sc["schema"])
     objs = [ts.get_type(o["t"])() for o in sc["objs"]]
     types0 = [o.type for o in objs]
@@ -437,6 +505,23 @@ def run_impl(cassis, sc):
 
 
 def oracle(cassis, sc, obs):
+    sts = stages(sc)
+    all_obs = list(obs.get("pre") or []) + [obs]
+    if len(all_obs) != len(sts):
+        return "stages_missing: observations do not cover every stage"
+    for j, (st, ob) in enumerate(zip(sts, all_obs)):
+        msg = _oracle_stage(st, ob)
+        if msg is not None:
+            if len(sts) == 1:
+                return msg
+            kind, _, rest = msg.partition(":")
+            late = sorted({f"{t['name']}.{f}" for t, t0 in zip(st["schema"], sts[j - 1]["schema"]) for f, _r in t["features"]
+                           if f not in [g for g, _ in t0["features"]]}) if j else []
+            return f"{kind}: stage {j} of {len(sts)}" + (f" (after create_feature of {', '.join(late)})" if late else "") + ":" + rest
+    return None
+
+
+def _oracle_stage(sc, obs):
     oh = OracleHeap(sc)
     for i, (op, got) in enumerate(zip(sc["ops"], obs["results"])):
         p = op["path"]
@@ -511,8 +596,14 @@ def _gobs(r):
 
 
 def render(sc, obs):
+    sts = stages(sc)
+    all_obs = list(obs.get("pre") or []) + [obs]
+    used = sorted({o["t"] for st in sts for o in st["objs"]})
+    return glist([_render_stage(st, ob, used) for st, ob in zip(sts, all_obs)])
+
+
+def _render_stage(sc, obs, used):
     eff = effective_features(sc["schema"])
-    used = sorted({o["t"] for o in sc["objs"]})
     sch = glist([f"({gstr(t)}, {glist([gstr(f) for f in eff[t]])})" for t in used])
     heap = glist([
         f"({gn(i)}, mkObj {gstr(o['t'])} {glist([f'({gstr(f)}, {_gval(canon_val(v))})' for f, v in o['slots'].items()])})"
@@ -535,13 +626,27 @@ def render(sc, obs):
 
 
 def nontrivial(sc):
-    for op in sc["ops"]:
-        if op["path"][0] == "s" and op["path"][1].count(".") >= 2:
-            return True
+    for st in stages(sc):
+        for op in st["ops"]:
+            if op["path"][0] == "s" and op["path"][1].count(".") >= 2:
+                return True
     return False
 
 
 def shrink_candidates(sc):
+    if sc.get("pre"):
+        c = json.loads(json.dumps(sc))
+        del c["pre"]
+        yield c
+        for j in range(len(sc["pre"])):
+            if len(sc["pre"]) > 1:
+                c = json.loads(json.dumps(sc))
+                del c["pre"][j]
+                yield c
+            for i in range(len(sc["pre"][j]["ops"])):
+                c = json.loads(json.dumps(sc))
+                del c["pre"][j]["ops"][i]
+                yield c
     ops = sc["ops"]
     for i in range(len(ops)):
         c = json.loads(json.dumps(sc))
@@ -578,7 +683,20 @@ def distribution(scenarios, observations):
             if op["k"] in ("set", "setitem")]
     gets = [r for s, o in zip(scenarios, observations) if o for op, r in zip(s["ops"], o["results"])
             if op["k"] in ("get", "getitem") and op["path"][0] == "s"]
-    return {"cases": len(scenarios), "operations": sum(len(s["ops"]) for s in scenarios),
+    staged = [s for s in scenarios if s.get("pre")]
+    early_ops = late_named = 0
+    for s in staged:
+        final = effective_features(s["schema"])
+        names_final = {f for fs in final.values() for f in fs}
+        for st in s["pre"]:
+            now = {f for fs in effective_features(st["schema"]).values() for f in fs}
+            for op in st["ops"]:
+                early_ops += 1
+                if op["path"][0] in ("s", "strlike") and set(op["path"][1].split(".")) & (names_final - now):
+                    late_named += 1
+    return {"cases": len(scenarios), "operations": sum(len(st["ops"]) for s in scenarios for st in stages(s)),
+            "staged_cases": len(staged), "operations_in_earlier_stages": early_ops,
+            "earlier_operations_naming_a_later_feature": late_named,
             "string_paths": len(paths), "max_segments": max([p.count(".") + 1 for p in paths] or [0]),
             "paths_with_empty_segment": sum(1 for p in paths if "" in p.split(".")),
             "paths_with_python_attr": sum(1 for p in paths if set(p.split(".")) & set(PY_ATTRS)),
